@@ -85,12 +85,22 @@ def _check_dominant(ctx, label, got, bpms, last):
     ctx.observe(label, got)
 
 
-def ob_dominant(game, nb, nn, perm, ctx):
+def ob_dominant(game, nb, nn, perm, ctx, extend=False):
     from reamber.algorithms.utils import dominant_bpm
 
     m, bpms, _svs, nt = _chart(ctx, game, nb, 0, nn, perm)
     got = dominant_bpm(m)
     _check_dominant(ctx, "dominant-bpm.is-argmax-of-active-time", got, bpms, nt[-1])
+    if extend:  # the chart grows after a first analysis: the answer must follow the chart, not the earlier call
+        from reamber.algorithms.analysis import scroll_speed
+
+        later = ctx.real("later")
+        ctx.assume(later > nt[-1])
+        m.hits = m.hits.append(type(m.hits)._item_class()(later, 1) if game not in ("bms", "qua") else m.hits[0].__class__(**dict(m.hits[0].data.to_dict(), offset=later)))
+        got2 = dominant_bpm(m)
+        _check_dominant(ctx, "dominant-bpm.after-extending-the-chart", got2, bpms, later)
+        ov = scroll_speed(m)
+        ctx.check("scroll-speed.after-extending.reaches-the-new-end", ctx.any(*[ctx.eq(x, later) for x in list(ov.index)]))
 
 
 def _active(ctx, pts, x, default):
@@ -191,6 +201,10 @@ def obligations(tier, seed):
                     obs.append(Obligation("C19/dominant/%s/b%d/n%d/rows=%s" % (g, nb, nn, pn), partial(ob_dominant, g, nb, nn, perm),
                                           bound="%s chart, %d tempo points (distinct symbolic times, symbolic bpm>0, equal values arise as paths), %d notes, tempo rows in order %s"
                                                 % (g, nb, nn, pn), max_paths=5000, timeout_s=240))
+    for g in (("osu", "sm") if quick else GAMES19):
+        for nb in (2, 3):
+            obs.append(Obligation("C19/dominant-after-extending/%s/b%d" % (g, nb), partial(ob_dominant, g, nb, 1, None, extend=True),
+                                  bound="%s chart with %d tempo points analysed, then extended by a later note (symbolic time), analysed again" % (g, nb), max_paths=5000, timeout_s=240))
     for g in (("osu", "qua", "sm") if quick else GAMES19):
         has_sv = g in SV_GAMES
         for nb in (1, 2):
